@@ -293,6 +293,24 @@ func (r *Rng) Gfx(n int) *rwp.HWCGfx {
 		g.ImageType = rwp.HWCGfx_ImageTypeE(r.I32b())
 		g.W, g.H = r.U32b(), r.U32b()
 	}
+	switch r.Intn(8) { // content classes: zero tail (one or several whole lines), all zero, zero head, all 0xFF
+	case 0:
+		for i := n / 3; i < n; i++ {
+			g.ImageData[i] = 0
+		}
+	case 1:
+		for i := range g.ImageData {
+			g.ImageData[i] = 0
+		}
+	case 2:
+		for i := 0; i < n-n/4; i++ {
+			g.ImageData[i] = 0
+		}
+	case 3:
+		for i := range g.ImageData {
+			g.ImageData[i] = 0xFF
+		}
+	}
 	return g
 }
 
